@@ -1,0 +1,419 @@
+//go:build verif
+
+/*
+ * Verification exports (guard: build tag "verif"). Thin wrappers that let an external
+ * harness drive internals (memtable rotation, the production compaction pickers, log-file
+ * and manifest codecs). They contain no logic of their own and are absent from normal builds.
+ */
+
+package badger
+
+import (
+	"bufio"
+	"bytes"
+	"os"
+	"sync/atomic"
+	"time"
+
+	"github.com/dgraph-io/badger/v4/pb"
+	"github.com/dgraph-io/badger/v4/y"
+	"github.com/dgraph-io/ristretto/v2/z"
+)
+
+// ---------------------------------------------------------------------------------------------
+// Memtable rotation and flush.
+
+var verifForceFullMt atomic.Pointer[memTable]
+
+func verifForceFull(mt *memTable) bool {
+	return verifForceFullMt.Load() == mt
+}
+
+// VerifMarkFull makes the current memtable report itself full, so that the next write rotates
+// it through the production path (ensureRoomForWrite in the writer goroutine).
+func (db *DB) VerifMarkFull() {
+	db.lock.RLock()
+	mt := db.mt
+	db.lock.RUnlock()
+	if mt != nil && !mt.sl.Empty() {
+		verifForceFullMt.Store(mt)
+	}
+}
+
+// VerifRotate rotates the current (non-empty) memtable into the flush queue through
+// ensureRoomForWrite. The caller must guarantee that no write is in flight.
+func (db *DB) VerifRotate() (bool, error) {
+	db.lock.RLock()
+	mt := db.mt
+	db.lock.RUnlock()
+	if mt == nil || mt.sl.Empty() {
+		return false, nil
+	}
+	verifForceFullMt.Store(mt)
+	defer verifForceFullMt.Store(nil)
+	for {
+		err := db.ensureRoomForWrite()
+		if err == errNoRoom {
+			time.Sleep(time.Millisecond)
+			continue
+		}
+		return err == nil, err
+	}
+}
+
+// VerifNumImm returns the number of immutable memtables waiting for a flush.
+func (db *DB) VerifNumImm() int {
+	db.lock.RLock()
+	defer db.lock.RUnlock()
+	return len(db.imm)
+}
+
+// VerifWaitFlushed waits until the flush queue is empty.
+func (db *DB) VerifWaitFlushed() {
+	for db.VerifNumImm() > 0 {
+		time.Sleep(200 * time.Microsecond)
+	}
+}
+
+// VerifMemtableEmpty reports whether the active memtable holds no entries.
+func (db *DB) VerifMemtableEmpty() bool {
+	db.lock.RLock()
+	defer db.lock.RUnlock()
+	return db.mt == nil || db.mt.sl.Empty()
+}
+
+// ---------------------------------------------------------------------------------------------
+// Compaction.
+
+// VerifPrio mirrors compactionPriority.
+type VerifPrio struct {
+	Level    int
+	Score    float64
+	Adjusted float64
+}
+
+// VerifPickCompactLevels returns what the production picker would hand to a compactor now.
+func (db *DB) VerifPickCompactLevels() []VerifPrio {
+	var out []VerifPrio
+	for _, p := range db.lc.pickCompactLevels(nil) {
+		out = append(out, VerifPrio{Level: p.level, Score: p.score, Adjusted: p.adjusted})
+	}
+	return out
+}
+
+// VerifCompact runs one production compaction (doCompact: the production table pickers choose
+// the tables) as compactor `id` with the given priority. The second result is true when the
+// pickers found nothing to do (errFillTables).
+func (db *DB) VerifCompact(id int, p VerifPrio) (error, bool) {
+	cp := compactionPriority{level: p.Level, score: p.Score, adjusted: p.Adjusted, t: db.lc.levelTargets()}
+	err := db.lc.doCompact(id, cp)
+	if err == errFillTables {
+		return nil, true
+	}
+	return err, false
+}
+
+// VerifBackdateTables makes every table look older by d (Table.CreatedAt is an exported field),
+// so that age-gated picker choices (L0->L0 after 10s, Lmax->Lmax after 1h) become reachable.
+func (db *DB) VerifBackdateTables(d time.Duration) {
+	for _, l := range db.lc.levels {
+		l.Lock()
+		for _, t := range l.tables {
+			t.CreatedAt = t.CreatedAt.Add(-d)
+		}
+		l.Unlock()
+	}
+}
+
+// VerifBaseLevel returns the current base level.
+func (db *DB) VerifBaseLevel() int { return db.lc.levelTargets().baseLevel }
+
+// VerifDiscardTs returns the discard watermark compactions would use now.
+func (db *DB) VerifDiscardTs() uint64 { return db.orc.discardAtOrBelow() }
+
+// VerifNextTxnTs returns the next commit timestamp of the oracle.
+func (db *DB) VerifNextTxnTs() uint64 { return db.orc.nextTs() }
+
+// VerifTxnMarkDoneUntil returns the applied-commit watermark.
+func (db *DB) VerifTxnMarkDoneUntil() uint64 { return db.orc.txnMark.DoneUntil() }
+
+// VerifReadMarkDoneUntil returns the pending-reads watermark.
+func (db *DB) VerifReadMarkDoneUntil() uint64 { return db.orc.readMark.DoneUntil() }
+
+// VerifValidateLevels runs the level validation that Open runs.
+func (db *DB) VerifValidateLevels() error { return db.lc.validate() }
+
+// VerifL0TableIDs returns the ids of L0 tables in their in-memory order (oldest first).
+func (db *DB) VerifL0TableIDs() []uint64 {
+	l := db.lc.levels[0]
+	l.RLock()
+	defer l.RUnlock()
+	var out []uint64
+	for _, t := range l.tables {
+		out = append(out, t.ID())
+	}
+	return out
+}
+
+// ---------------------------------------------------------------------------------------------
+// Value log.
+
+// VerifVlogFids returns the value-log file ids currently known (sorted).
+func (db *DB) VerifVlogFids() []uint32 {
+	if db.opt.InMemory {
+		return nil
+	}
+	db.vlog.filesLock.RLock()
+	defer db.vlog.filesLock.RUnlock()
+	return db.vlog.sortedFids()
+}
+
+// VerifSetGCPauseHook installs the existing test hook that fires between the scan and the
+// write-back phase of a value-log rewrite.
+func (db *DB) VerifSetGCPauseHook(f func()) { db.vlogGCPauseHook = f }
+
+// VerifValueThreshold returns the current (possibly dynamic) value threshold.
+func (db *DB) VerifValueThreshold() int64 { return db.valueThreshold() }
+
+// VerifDiscardStats returns fid -> discard bytes.
+func (db *DB) VerifDiscardStats() map[uint32]int64 {
+	out := map[uint32]int64{}
+	if db.vlog.discardStats == nil {
+		return out
+	}
+	db.vlog.discardStats.Lock()
+	db.vlog.discardStats.Iterate(func(id, val uint64) { out[uint32(id)] = int64(val) })
+	db.vlog.discardStats.Unlock()
+	return out
+}
+
+// ---------------------------------------------------------------------------------------------
+// Publisher / merge operator.
+
+// VerifNumSubscribers returns the number of registered subscribers.
+func (db *DB) VerifNumSubscribers() int { return db.pub.noOfSubscribers() }
+
+// VerifCompact runs the merge operator's own compaction once.
+func (op *MergeOperator) VerifCompact() error { return op.compact() }
+
+// ---------------------------------------------------------------------------------------------
+// Meta bits.
+
+const (
+	VerifBitDelete                 = bitDelete
+	VerifBitValuePointer           = bitValuePointer
+	VerifBitDiscardEarlierVersions = bitDiscardEarlierVersions
+	VerifBitMergeEntry             = bitMergeEntry
+	VerifBitTxn                    = bitTxn
+	VerifBitFinTxn                 = bitFinTxn
+	VerifVlogHeaderSize            = vlogHeaderSize
+	VerifMaxHeaderSize             = maxHeaderSize
+)
+
+// VerifItemMeta returns the internal meta byte of an item.
+func VerifItemMeta(it *Item) byte { return it.meta }
+
+// VerifItemVptr reports whether the item's value lives in the value log, and where.
+func VerifItemVptr(it *Item) (bool, uint32, uint32, uint32) {
+	if it.meta&bitValuePointer == 0 || len(it.vptr) < int(vptrSize) {
+		return false, 0, 0, 0
+	}
+	var vp valuePointer
+	vp.Decode(it.vptr)
+	return true, vp.Fid, vp.Offset, vp.Len
+}
+
+// ---------------------------------------------------------------------------------------------
+// Codecs.
+
+// VerifHeader mirrors header.
+type VerifHeader struct {
+	Klen, Vlen uint32
+	ExpiresAt  uint64
+	Meta       byte
+	UserMeta   byte
+}
+
+func (h VerifHeader) in() header {
+	return header{klen: h.Klen, vlen: h.Vlen, expiresAt: h.ExpiresAt, meta: h.Meta, userMeta: h.UserMeta}
+}
+func verifHeaderOut(h header) VerifHeader {
+	return VerifHeader{Klen: h.klen, Vlen: h.vlen, ExpiresAt: h.expiresAt, Meta: h.meta, UserMeta: h.userMeta}
+}
+
+// VerifHeaderEncode encodes a header.
+func VerifHeaderEncode(h VerifHeader) []byte {
+	var buf [maxHeaderSize]byte
+	n := h.in().Encode(buf[:])
+	return append([]byte{}, buf[:n]...)
+}
+
+// VerifHeaderDecode decodes with header.Decode.
+func VerifHeaderDecode(b []byte) (VerifHeader, int) {
+	var h header
+	n := h.Decode(b)
+	return verifHeaderOut(h), n
+}
+
+// VerifHeaderDecodeFrom decodes with header.DecodeFrom over a hashReader.
+func VerifHeaderDecodeFrom(b []byte) (VerifHeader, int, error) {
+	var h header
+	n, err := h.DecodeFrom(newHashReader(bytes.NewReader(b)))
+	return verifHeaderOut(h), n, err
+}
+
+// VerifVptrEncode / VerifVptrDecode round-trip a value pointer.
+func VerifVptrEncode(fid, length, offset uint32) []byte {
+	return valuePointer{Fid: fid, Len: length, Offset: offset}.Encode()
+}
+func VerifVptrDecode(b []byte) (fid, length, offset uint32) {
+	var vp valuePointer
+	vp.Decode(b)
+	return vp.Fid, vp.Len, vp.Offset
+}
+
+// ---------------------------------------------------------------------------------------------
+// Log files (WAL / value log share logFile).
+
+// VerifLogEntry is one record as delivered by logFile.iterate.
+type VerifLogEntry struct {
+	Key, Value []byte
+	Meta       byte
+	UserMeta   byte
+	ExpiresAt  uint64
+	Fid        uint32
+	Offset     uint32
+	Len        uint32
+}
+
+// VerifLog wraps a logFile.
+type VerifLog struct {
+	lf  *logFile
+	buf bytes.Buffer
+}
+
+// VerifLogOpen opens or creates a log file of the given mapped size.
+func VerifLogOpen(path string, fid uint32, reg *KeyRegistry, size int64, create bool, opt Options) (*VerifLog, error) {
+	lf := &logFile{fid: fid, path: path, registry: reg, writeAt: vlogHeaderSize, opt: opt}
+	flags := os.O_RDWR
+	if create {
+		flags |= os.O_CREATE | os.O_EXCL
+	}
+	err := lf.open(path, flags, size)
+	if err != nil && err != z.NewFile {
+		return nil, err
+	}
+	return &VerifLog{lf: lf}, nil
+}
+
+// WriteAt returns the next write offset.
+func (l *VerifLog) WriteAt() uint32 { return l.lf.writeAt }
+
+// Data exposes the mapped bytes (for corruption injection).
+func (l *VerifLog) Data() []byte { return l.lf.Data }
+
+// Write appends a record through logFile.writeEntry and returns its (offset, length).
+func (l *VerifLog) Write(key, value []byte, meta, userMeta byte, expiresAt uint64) (uint32, uint32, error) {
+	e := &Entry{Key: key, Value: value, meta: meta, UserMeta: userMeta, ExpiresAt: expiresAt}
+	off := l.lf.writeAt
+	if err := l.lf.writeEntry(&l.buf, e, l.lf.opt); err != nil {
+		return 0, 0, err
+	}
+	l.lf.size.Store(l.lf.writeAt)
+	return off, l.lf.writeAt - off, nil
+}
+
+// Iterate runs logFile.iterate from offset and returns the valid end offset.
+func (l *VerifLog) Iterate(offset uint32, fn func(VerifLogEntry) error) (uint32, error) {
+	return l.lf.iterate(true, offset, func(e Entry, vp valuePointer) error {
+		return fn(VerifLogEntry{
+			Key: append([]byte{}, e.Key...), Value: append([]byte{}, e.Value...),
+			Meta: e.meta, UserMeta: e.UserMeta, ExpiresAt: e.ExpiresAt,
+			Fid: vp.Fid, Offset: vp.Offset, Len: vp.Len,
+		})
+	})
+}
+
+// ReadAt resolves a pointer the way valueLog.Read does (read + decodeEntry).
+func (l *VerifLog) ReadAt(offset, length uint32) (VerifLogEntry, error) {
+	buf, err := l.lf.read(valuePointer{Fid: l.lf.fid, Offset: offset, Len: length})
+	if err != nil {
+		return VerifLogEntry{}, err
+	}
+	e, err := l.lf.decodeEntry(buf, offset)
+	if err != nil {
+		return VerifLogEntry{}, err
+	}
+	return VerifLogEntry{Key: append([]byte{}, e.Key...), Value: append([]byte{}, e.Value...),
+		Meta: e.meta, UserMeta: e.UserMeta, ExpiresAt: e.ExpiresAt, Fid: l.lf.fid, Offset: offset, Len: length}, nil
+}
+
+// SafeReadAll reads records one by one with safeRead.Entry (no transaction grouping) until
+// the first error / zero record and returns them.
+func (l *VerifLog) SafeReadAll() []VerifLogEntry {
+	reader := bufio.NewReader(l.lf.NewReader(int(vlogHeaderSize)))
+	read := &safeRead{k: make([]byte, 10), v: make([]byte, 10), recordOffset: vlogHeaderSize, lf: l.lf}
+	var out []VerifLogEntry
+	for {
+		e, err := read.Entry(reader)
+		if err != nil || e == nil || e.isZero() {
+			return out
+		}
+		ln := uint32(e.hlen + len(e.Key) + len(e.Value) + 4)
+		out = append(out, VerifLogEntry{Key: append([]byte{}, e.Key...), Value: append([]byte{}, e.Value...),
+			Meta: e.meta, UserMeta: e.UserMeta, ExpiresAt: e.ExpiresAt, Fid: l.lf.fid, Offset: e.offset, Len: ln})
+		read.recordOffset += ln
+	}
+}
+
+// KeyID and BaseIV expose the encryption header of the file.
+func (l *VerifLog) KeyID() uint64  { return l.lf.keyID() }
+func (l *VerifLog) BaseIV() []byte { return append([]byte{}, l.lf.baseIV...) }
+
+// Close unmaps and closes the file without truncation.
+func (l *VerifLog) Close() error { return l.lf.Close(-1) }
+
+// ---------------------------------------------------------------------------------------------
+// MANIFEST.
+
+// VerifManifest wraps a manifestFile.
+type VerifManifest struct{ mf *manifestFile }
+
+// VerifManifestOpen opens or creates dir/MANIFEST with the given rewrite threshold.
+func VerifManifestOpen(dir string, deletionsThreshold int, opt Options) (*VerifManifest, Manifest, error) {
+	mf, m, err := helpOpenOrCreateManifestFile(dir, false, opt.ExternalMagicVersion, deletionsThreshold, opt)
+	if err != nil {
+		return nil, Manifest{}, err
+	}
+	return &VerifManifest{mf: mf}, m, nil
+}
+
+// AddChanges appends one change set through manifestFile.addChanges.
+func (m *VerifManifest) AddChanges(changes []*pb.ManifestChange, opt Options) error {
+	return m.mf.addChanges(changes, opt)
+}
+
+// Snapshot returns a copy of the in-memory manifest.
+func (m *VerifManifest) Snapshot(opt Options) Manifest {
+	m.mf.appendLock.Lock()
+	defer m.mf.appendLock.Unlock()
+	return m.mf.manifest.clone(opt)
+}
+
+// Close closes the file.
+func (m *VerifManifest) Close() error { return m.mf.close() }
+
+// VerifManifestLevelTables returns, per level, the table ids recorded in a Manifest.
+func VerifManifestLevelTables(m Manifest) []map[uint64]struct{} {
+	var out []map[uint64]struct{}
+	for _, l := range m.Levels {
+		c := map[uint64]struct{}{}
+		for id := range l.Tables {
+			c[id] = struct{}{}
+		}
+		out = append(out, c)
+	}
+	return out
+}
+
+var _ = y.VerifEnabled
